@@ -285,6 +285,8 @@ def _exec_job(job):
     try:
         import logging
         logging.disable(logging.CRITICAL)
+        if not os.environ.get("VF_INPROC") and not os.environ.get("VF_VERBOSE"):
+            sys.stdout = open(os.devnull, "w")      # the repository prints on every discarded packet
         modname, fname = job["fn"].split(":")
         mod = importlib.import_module(modname)
         part = getattr(mod, fname)(**job.get("args", {}))
